@@ -287,7 +287,7 @@ Definition enc_stub (st : stub) (o : operand) (rel : Z) : res (Z * list Z) :=
       | None => Err ["unexpected-value"]
       end
   | SkImmediate =>
-      match (match o with OImm v => Some v | _ => plain_value o end) with
+      match num_value o with
       | Some v => do f <- enc_imm (unsigned_ st) (bitness st) v; Ok (f, [])
       | None => Err ["unexpected-value"]
       end
